@@ -2,6 +2,8 @@
 import eevent
 import epost
 import eunits
+import esat
+import ecarry
 
 LEVEL = "E-POST + E-EVENT"
 
@@ -17,4 +19,14 @@ def run(ctx):
     epost.check_sat_count_uses(ctx, F)
     eevent.check_manager(ctx, F, "oxidd_manager_index")
     eevent.check_manager(ctx, F, "oxidd_manager_pointer")
-    ctx.not_decided = "exactness of the count and all of the big-natural arithmetic (value-level)"
+    ctx.explain("E-SAT: sat_count_edge::inner (BDD, BCDD, ZBDD) interpreted with symbolic numbers: terminal base cases, "
+                "count(node) = (count(c0) + count(c1)) >> 1 over the cofactors seen through the complement tag (ZBDD: "
+                "count(hi) + count(lo)), insert under the looked-up key, hit returns the stored value, complemented and "
+                "plain edges use different keys.")
+    n = esat.run(ctx, F)
+    ctx.floor("E-SAT", "interpreted runs of the counting recursion", n, 25)
+    ctx.explain("E-CARRY: in Natural's multi-digit addition no computed carry is overwritten before it is read.")
+    fns, defs = ecarry.run(ctx, F)
+    ctx.floor("E-CARRY", "carry definitions checked", defs, 8)
+    ctx.not_decided = ("exactness of the number types beyond the carry chain (shifts, comparisons, conversions, textual "
+                       "output), the scaling by 2^vars around the recursion")
